@@ -702,6 +702,10 @@ class RecordDescriptor:
 
     @staticmethod
     def _unpack(name, fields: tuple[tuple[str, str]]) -> RecordDescriptor:
+        if fields is None:
+            # a definition that arrives in a stream or a JSON file always carries its field list; without one the name would be
+            # taken for the deprecated one-string definition ("name\ntype field ...") and parsed instead of validated
+            raise RecordDescriptorError("Record descriptor without a field list: {!r}".format(name))
         return RecordDescriptor(name, fields)
 
 
